@@ -211,6 +211,33 @@ def model_status(H, I, W):
     return staged, unstaged, untracked
 
 
+def collapse_untracked(untracked, I):
+    """git's --untracked-files=normal: an untracked file is shown as its topmost ancestor directory that holds no tracked path."""
+    out = set()
+    for u in untracked:
+        parts = u.split(b"/")
+        shown = u
+        for k in range(1, len(parts)):
+            d = b"/".join(parts[:k]) + b"/"
+            if not any(p.startswith(d) for p in I):
+                shown = d
+                break
+        out.add(shown)
+    return sorted(out)
+
+
+def git_untracked_normal(wt):
+    r = core.git(["status", "--porcelain=v1", "-z", "--untracked-files=normal", "--no-renames", "--ignore-submodules=all"], cwd=wt,
+                 extra_cfg=["core.quotepath=false", "status.renames=false"])
+    return sorted(rec[3:] for rec in r.stdout.split(b"\0") if rec[:2] == b"??")
+
+
+def dul_untracked_normal(wt):
+    from dulwich import porcelain
+    s = porcelain.status(wt, untracked_files="normal")
+    return sorted(os.fsencode(p) if isinstance(p, str) else p for p in s.untracked)
+
+
 def git_status(wt):
     r = core.git(["status", "--porcelain=v1", "-z", "--untracked-files=all", "--no-renames", "--ignore-submodules=all"], cwd=wt,
                  extra_cfg=["core.quotepath=false", "status.renames=false"])
@@ -325,6 +352,37 @@ def compare_status(tag, wt, viol, stats, H=None):
             for tg in tags:
                 viol.append({"sig": "C18/%s/status-%s/%s" % (tag, kind, tg), "missing": [core.short(p, 60) for p in missing[:4]], "spurious": [core.short(p, 60) for p in extra[:4]]})
     stats["status_paths_compared"] = stats.get("status_paths_compared", 0) + len(I) + len(W)
+    # untracked-files=normal (directories collapsed)
+    if mt:
+        mn = collapse_untracked(mt, I)
+        try:
+            gn = git_untracked_normal(wt)
+        except core.GitError:
+            gn = None
+        if gn == mn:
+            stats["status_normal_mode_comparisons"] = stats.get("status_normal_mode_comparisons", 0) + 1
+            try:
+                dn = dul_untracked_normal(wt)
+            except (MemoryError, RecursionError):
+                raise
+            except Exception as e:
+                viol.append({"sig": "C18/%s/status-normal-raises-%s" % (tag, type(e).__name__), "msg": str(e)[:200]})
+                return False
+            if dn != mn:
+                ok = False
+                missing = sorted(set(mn) - set(dn))
+                extra = sorted(set(dn) - set(mn))
+                how = []
+                if any(x.endswith(b"/") for x in extra) and any(not x.endswith(b"/") and any(x.startswith(e_) for e_ in extra if e_.endswith(b"/")) for x in extra):
+                    how.append("directory-listed-and-its-content-too")
+                if missing:
+                    how.append("missing-" + ("dir" if missing[0].endswith(b"/") else "file"))
+                if extra and not how:
+                    how.append("spurious-" + ("dir" if extra[0].endswith(b"/") else "file"))
+                for h in how or ["differs"]:
+                    viol.append({"sig": "C18/%s/status-untracked-normal/%s" % (tag, h), "missing": [core.short(p, 60) for p in missing[:4]], "spurious": [core.short(p, 60) for p in extra[:4]]})
+        else:
+            stats["inconclusive_normal_model_vs_git"] = stats.get("inconclusive_normal_model_vs_git", 0) + 1
     return ok
 
 
@@ -435,11 +493,12 @@ def run_case(case):
         try:
             r = Repo(wt)
             try:
-                files = all_files_abs(wt)
                 if rng.random() < 0.5:
                     os.unlink(r.index_path())
                     feats.add("restage-into-empty-index")
-                porcelain.add(r, paths=files)
+                # "stage everything" = add of the work tree root (add(<symlink to a directory>) is specified by the repository's own
+                # tests to follow the link, so per-file paths are not the same operation)
+                porcelain.add(r, paths=[wt])
                 got = r.open_index().commit(r.object_store)
             finally:
                 r.close()
@@ -469,7 +528,7 @@ def run_case(case):
             W = walk_disk(wt)
             I = git_index(wt)
             files = sorted(W)
-            e = rng.choice(["modify-size", "modify-same-size", "modify-same-size", "chmod", "chmod", "delete", "add-untracked", "add-untracked-dir", "file-to-symlink",
+            e = rng.choice(["modify-size", "modify-same-size", "modify-same-size", "chmod", "chmod", "delete", "add-untracked", "add-untracked-dir", "add-untracked-prefix-dir", "file-to-symlink",
                             "symlink-to-file", "file-to-dir", "dir-to-file", "stage", "stage", "unstage", "rm-cached", "stage-all", "commit", "switch"])
             wtb = os.fsencode(wt)
             try:
@@ -530,6 +589,19 @@ def run_case(case):
                         open(os.path.join(dd, rng.choice(NAMES)), "wb").write(b"u\n")
                         if rng.random() < 0.5:
                             open(os.path.join(os.path.dirname(dd), b"second"), "wb").write(b"u2\n")
+                elif e == "add-untracked-prefix-dir":
+                    # an untracked directory whose name is a byte prefix of a tracked sibling (src/ next to src.txt, di/ next to dir/)
+                    tops = sorted(set(p.split(b"/")[0] for p in I if len(p.split(b"/")[0]) > 1))
+                    if not tops:
+                        continue
+                    t0 = rng.choice(tops)
+                    nm = t0[:rng.randrange(1, len(t0))]
+                    dd = os.path.join(wtb, nm)
+                    if os.path.lexists(dd) or nm in (b".", b"..", b".git"):
+                        continue
+                    os.makedirs(os.path.join(dd, b"deep"))
+                    open(os.path.join(dd, b"x"), "wb").write(b"u\n")
+                    open(os.path.join(dd, b"deep", b"y"), "wb").write(b"u\n")
                 elif e == "stage":
                     cand = sorted(set(p for p in W if I.get(p) != W[p]))
                     if not cand:
